@@ -99,6 +99,15 @@ def run(rep: Report, ctx: Any) -> str:
                       "rewriting option in model_config / class Config / Field(...) / StringConstraints(...) / constr(...) (number-to-string "
                       "coercion, stripping, case folding, aliases), no validator function or method that can replace a value - and every "
                       "field is declared with the type of the Config field it feeds (None apart)")
+    rep.rule("R16.10", "class_overrides is keyed by the generated class name (the README: look the names up in the generated models folder): every "
+                       "consultation of the table in Class.from_string (private helpers inlined, executed symbolically: `.get(k, ...)`, `[k]`, "
+                       "`k in`, `k == <one of its keys>`) uses as k the result of `ClassName(<computed from the string parameter>, ...)` - the name "
+                       "as it is minted - not the document's spelling of it nor anything computed from the minted name")
+    rep.rule("R16.11", "content_type_overrides changes how a body is encoded, not what it is announced as: in every template (macros included) "
+                       "that writes a body's content_type, what is written is `<body>.content_type` itself, and whether it is written does not "
+                       "depend on a test of `<body>.body_type` (the classification the override table changes) - truth table over the tests that "
+                       "guard the writes: for every outcome of the other tests, the outcomes of the body_type tests do not decide whether a "
+                       "Content-Type is written")
     cfgc = ix.cls("Config")
     cff = ix.cls("ConfigFile")
     fs = cfgc.methods.get("from_sources")
@@ -200,6 +209,8 @@ def run(rep: Report, ctx: Any) -> str:
     rep.floor("name_constructor_sites", n_pi, 12)
     _r163_media_types(rep, ix)
     _r166_override_key(rep, ix, cfgc)
+    _r1610_class_override_key(rep, ix, cfgc)
+    _r1611_announced_as_itself(rep, ctx.jinja)
     _r167_switched_classes(rep, ix, ctx.jinja)
     _r168_title_names(rep, ix)
     _r169_file_model(rep, ix, cfgc, cff)
@@ -400,9 +411,15 @@ def _origins(ix: Any, f: Any, e: ast.AST, callers: dict[str, list[Any]], depth: 
                 if isinstance(v, (ast.Tuple, ast.List)) and idx[0] < len(v.elts) and not any(isinstance(x, ast.Starred) for x in v.elts):
                     out += _origins(ix, f, v.elts[idx[0]], callers, depth - 1, unpack, stop)  # `a, b = x, y`
                 elif unpack:
-                    out.append((f, ast.copy_location(ast.Subscript(value=v, slice=ast.Constant(value=idx[0]), ctx=ast.Load()), v)))
+                    # the i-th item of what a private helper returns is the i-th item of each tuple it returns
+                    back = _returned(ix, f, v, idx[0], callers, depth - 1, stop)
+                    out += back if back is not None else [(f, ast.copy_location(ast.Subscript(value=v, slice=ast.Constant(value=idx[0]), ctx=ast.Load()), v))]
                 else:
                     return [(f, e)]
+                continue
+            back = _returned(ix, f, v, None, callers, depth - 1, stop) if unpack else None
+            if back is not None:
+                out += back
                 continue
             out += [(f, v)] if isinstance(v, ast.Name) and v.id == e.id else _origins(ix, f, v, callers, depth - 1, unpack, stop)
         return out
@@ -425,6 +442,34 @@ def _origins(ix: Any, f: Any, e: ast.AST, callers: dict[str, list[Any]], depth: 
                     return [(f, e)]
         return out or [(f, e)]
     return [(f, e)]
+
+
+def _returned(ix: Any, f: Any, v: ast.AST, idx: int | None, callers: dict[str, list[Any]], depth: int, stop: Any) -> list[tuple[Any, ast.AST]] | None:
+    """where the value of `<private helper of f>(...)` (its idx-th item, the helper returning tuple displays) is taken from: the origins,
+    inside the helper, of what each of its `return` statements returns.  None when v is not such a call or a return is not that plain."""
+    if not isinstance(v, ast.Call) or depth <= 0:
+        return None
+    h = _helper_called(ix, f, v, _helpers_of(ix, f))
+    if h is None or h.qual == f.qual:
+        return None
+    rets, todo = [], list(h.node.body)
+    while todo:
+        n = todo.pop()
+        if isinstance(n, ast.Return):
+            rets.append(n)
+        elif isinstance(n, (ast.Yield, ast.YieldFrom)):
+            return None
+        elif not isinstance(n, (ast.FunctionDef, ast.AsyncFunctionDef, ast.Lambda, ast.ClassDef)):
+            todo += list(ast.iter_child_nodes(n))
+    out: list[tuple[Any, ast.AST]] = []
+    for r in rets:
+        rv = r.value
+        if rv is not None and idx is not None:
+            rv = rv.elts[idx] if isinstance(rv, ast.Tuple) and idx < len(rv.elts) and not any(isinstance(x, ast.Starred) for x in rv.elts) else None
+        if rv is None:
+            return None
+        out += _origins(ix, h, rv, callers, depth, True, stop)
+    return out or None
 
 
 _NAME_CTORS = ("PythonIdentifier", "ClassName")  # (value, prefix, ...)
@@ -684,6 +729,140 @@ def _r166_override_key(rep: Report, ix: Any, cfgc: Any) -> None:
               f"content_type_overrides is consulted with {wrong[:3]} instead of the media type as the document spells it: an override whose key "
               "differs from that computed form is never found, and the media type is classified by its own name", where(f, f.node),
               lhs=wrong or key_param, rhs=f"<config>.{_OVERRIDES} looked up by `{key_param}` itself")
+
+
+# ---- R16.10: the key the class override table is consulted with -------------------------------------------------------------------------
+
+def _r1610_class_override_key(rep: Report, ix: Any, cfgc: Any) -> None:
+    """`class_overrides` maps the name of a generated class - as the user finds it in the generated models folder - to the names to use
+    instead.  The table therefore has to be consulted with the class name as it is minted (`ClassName(...)` of the string the class is
+    made from): the document's own spelling (`pet_category`, `pet-category`) finds other entries than the documented ones, and so does
+    anything computed from the minted name.  Decided on values: Class.from_string is executed symbolically with its private helpers
+    inlined, so the key of each lookup is an expression of its parameters whatever locals it travels through."""
+    table = "class_overrides"
+    f = ix.func("parser.properties.schemas.Class.from_string")
+    rep.require(f, "Class.from_string")
+    others = [p.arg for p in f.params if not (p.annotation is not None and cfgc.name in norm(p.annotation))]
+    rep.require(len(others) == 1, f"the string parameter of Class.from_string (the one parameter that is not annotated as {cfgc.name})")
+    src = others[0]
+
+    def is_table(x: ast.AST) -> bool:
+        return isinstance(x, ast.Attribute) and x.attr == table
+
+    sx = SymExec(ix, watch=lambda c: True, record=True)
+    sx.run(f)
+    _expand_helper_calls(sx)
+    exprs: list[ast.AST] = list(sx.recorded or [])
+    for conds, call, _ in sx.hits:
+        exprs += [e for e, _ in conds] + [call]
+    for st, rv in sx.exits:
+        exprs += [e for e, _ in st.conds] + [rv]
+    found: dict[str, tuple[ast.AST, ast.AST]] = {}
+    for e in exprs:
+        for k, at in _table_lookups(e, is_table):
+            found.setdefault(f"{norm(k)} @ {norm(at)}", (k, at))
+    rep.floor("class_override_lookups", len(found), 1)
+
+    def minted(k: ast.AST) -> bool:
+        if not (isinstance(k, ast.Call) and _last(k) == "ClassName"):
+            return False
+        named = k.args[0] if k.args else {kw.arg: kw.value for kw in k.keywords}.get("value")
+        return named is not None and not any(isinstance(a, ast.Starred) for a in k.args) and src in _free_names(named)
+
+    wrong = sorted({norm(k)[:80] for k, _ in found.values() if not minted(k)})
+    rep.check(not wrong, "R16.10", f"{short(f)}::overrides-keyed-by-the-generated-class-name",
+              f"class_overrides is consulted with {wrong[:3]} instead of the class name as it is generated (ClassName(...) of `{src}`): an override "
+              "keyed, as documented, by the name found in the generated models is not applied to a schema whose spelling differs from its class name",
+              where(f, f.node), lhs=wrong or "ClassName(...)", rhs=f"<config>.{table} looked up by ClassName(<from {src}>, <prefix>)")
+
+
+# ---- R16.11: a body is announced as the media type the document declares ------------------------------------------------------------------
+
+def _r1611_announced_as_itself(rep: Report, jx: Any) -> None:
+    """content_type_overrides changes the classification of a media type (Body.body_type: how the body is encoded); the media type it is
+    sent as stays the document's (Body.content_type).  In the templates this holds when (1) what is written from a body's content_type is
+    that attribute itself and (2) whether it is written is not decided by a test of the classification: a write under `body_type == X`
+    (or skipped under it) makes the override change the Content-Type on the wire.  (2) is a truth table over the tests guarding the writes
+    of one scope (template body / macro): nested or chained tests, either branch order, a dispatch on body_type that writes the
+    Content-Type in every branch all leave the answer independent of the body_type tests."""
+    from .. import tplq
+
+    import re
+
+    from ..jinja_interp import expr_text
+
+    def reads(n: Any, attr: str) -> bool:
+        """the expression reads `<x>.attr` - itself or through a template-local variable (which reads as its definition, jinja_canon)"""
+        return any(isinstance(x, jnodes.Getattr) and x.attr == attr for x in [n, *n.find_all(jnodes.Getattr)]) or \
+            re.search(rf"\.{attr}\b", expr_text(n)) is not None
+
+    def is_attr(n: Any, attr: str) -> bool:
+        """`<x>.attr` for a plain x (names, attributes, items), directly or as the definition of a template-local variable"""
+        if isinstance(n, jnodes.Getattr) and n.attr == attr:
+            return not any(isinstance(x, (jnodes.Call, jnodes.Filter, jnodes.CondExpr, jnodes.BinExpr, jnodes.Concat)) for x in n.node.find_all(jnodes.Node))
+        return isinstance(n, jnodes.Name) and re.fullmatch(rf"\(?[\w.\[\]*()]+\.{attr}\)?", n.name) is not None
+
+    n_writes = 0
+    for ti in jx.templates.values():
+        scopes = [("<template>", ti.tree.body)] + [(m.name, m.body) for m in ti.tree.find_all(jnodes.Macro)]
+        exprs = {sname: [fr for fr in tplq.frags(body) if fr.kind == "expr"] for sname, body in scopes}
+        # a call of a macro of the template that writes a content_type is a write where it is called
+        writers: set[str] = set()
+        while True:
+            more = {sname for sname, frs in exprs.items() if sname != "<template>" and sname not in writers and any(
+                reads(fr.node, "content_type") or _calls_macro(fr.node, writers) for fr in frs)}
+            if not more:
+                break
+            writers |= more
+        for sname, body in scopes:
+            direct = [fr for fr in exprs[sname] if reads(fr.node, "content_type")]
+            writes = direct + [fr for fr in exprs[sname] if fr not in direct and _calls_macro(fr.node, writers)]
+            if not writes:
+                continue
+            n_writes += len(direct)  # each place that writes a content_type, wherever a refactoring puts it (template text, macro)
+            key = f"{ti.name}::{sname}" if sname != "<template>" else ti.name
+            computed = [fr for fr in direct if not is_attr(fr.node, "content_type")]
+            rep.check(not computed, "R16.11", f"{key}::writes-the-declared-content-type",
+                      "what is written as a body's media type is computed from its content_type instead of being it: the body is not announced as the "
+                      "document declares it", where=f"{PKG}/templates/{ti.name}:{computed[0].line if computed else writes[0].line}",
+                      lhs=[fr.text[:80] for fr in computed[:3]] or "<body>.content_type", rhs="{{ <body>.content_type }}")
+            names: list[str] = []
+            tests: dict[str, Any] = {}
+            for fr in writes:
+                for gn in fr.guard_nodes:
+                    for a, node in _tpl_atoms(gn):
+                        if a not in names:
+                            names.append(a)
+                            tests[a] = node
+            cls_atoms = [a for a in names if reads(tests[a], "body_type")]
+            rest = [a for a in names if a not in cls_atoms]
+            deciding: list[dict[str, bool]] = []
+            if cls_atoms and len(names) <= 14:
+                for env in tplq.assignments(rest):
+                    outcomes = {any(tplq.guard_holds(fr, {**env, **cenv}) for fr in writes) for cenv in tplq.assignments(cls_atoms)}
+                    if len(outcomes) > 1:
+                        deciding.append(env)
+            elif cls_atoms:
+                deciding.append({})
+            rep.check(not deciding, "R16.11", f"{key}::content-type-written-whatever-the-classification",
+                      f"whether the body's Content-Type is written depends on {cls_atoms[:2]}: a media type that content_type_overrides maps to "
+                      "another one is then announced (or not) by what it is mapped to, not as itself", where=f"{PKG}/templates/{ti.name}:{writes[0].line}",
+                      lhs=cls_atoms, rhs="tests of <body>.content_type / of the number of bodies only")
+    rep.floor("content_type_writes", n_writes, 1)
+
+
+def _calls_macro(n: Any, names: set[str]) -> bool:
+    return bool(names) and any(isinstance(c.node, jnodes.Name) and c.node.name in names for c in [n, *n.find_all(jnodes.Call)] if isinstance(c, jnodes.Call))
+
+
+def _tpl_atoms(test: Any) -> list[tuple[str, Any]]:
+    """(text, node) of the atoms of a template test, as tplq.atoms splits it"""
+    from ..jinja_interp import expr_text
+    if isinstance(test, (jnodes.And, jnodes.Or)):
+        return _tpl_atoms(test.left) + _tpl_atoms(test.right)
+    if isinstance(test, jnodes.Not):
+        return _tpl_atoms(test.node)
+    return [(expr_text(test), test)]
 
 
 # ---- R16.7: the classes an option switches between ----------------------------------------------------------------------------------
@@ -1098,10 +1277,26 @@ def _r164_tags(rep: Report, ix: Any, callers: dict[str, list[Any]]) -> None:
     # every collection of the operation receives the endpoint object itself: what is appended to `<collection>.endpoints` is the local that
     # holds the result of Endpoint.from_data, appended in a loop over all the collections (or all the tags - the value decided above) that
     # selects the collection by the loop variable and does not rebind the endpoint
-    def is_tags(fn: Any, v: ast.AST) -> bool:
-        return isinstance(v, ast.Name) and any(
-            k.arg == "tags" and isinstance(k.value, ast.Name) and k.value.id == v.id
-            for c in ast.walk(fn.node) if isinstance(c, ast.Call) and call_name(c).endswith("Endpoint.from_data") for k in c.keywords)
+    def is_tags(fn: Any, v: ast.AST, depth: int = 3) -> bool:
+        """the local is what Endpoint.from_data receives as `tags=`: handed to it in fn, or handed to a private helper of fn whose
+        parameter is"""
+        if not isinstance(v, ast.Name):
+            return False
+        helpers = None
+        for c in ast.walk(fn.node):
+            if not isinstance(c, ast.Call):
+                continue
+            if call_name(c).endswith("Endpoint.from_data"):
+                if any(k.arg == "tags" and isinstance(k.value, ast.Name) and k.value.id == v.id for k in c.keywords):
+                    return True
+            elif depth > 0 and any(isinstance(a, ast.Name) and a.id == v.id for a in [*c.args, *[k.value for k in c.keywords]]):
+                helpers = helpers if helpers is not None else _helpers_of(ix, fn)
+                h = _helper_called(ix, fn, c, helpers)
+                if h is not None and h.qual != fn.qual and any(
+                        isinstance(a, ast.Name) and a.id == v.id and p in _param_names(h) and is_tags(h, ast.Name(id=p, ctx=ast.Load()), depth - 1)
+                        for p, a in _bind_call(c, h).items()):
+                    return True
+        return False
 
     def all_collections(fn: Any, v: ast.AST) -> bool:
         """the tags themselves, or one collection per tag: `[<map>.setdefault(tag, ...) | <map>[tag] for tag in <tags>]`"""
@@ -1252,30 +1447,35 @@ def _r161_from_sources(rep: Report, ix: Any, fs: Any, cfgc: Any, cff: Any, field
     cf_param = next((p.arg for p in fs.params if p.annotation is not None and cff.name in norm(p.annotation)), None)
     rep.require(cf_param, "the ConfigFile parameter of Config.from_sources")
     ctor_names = {cfgc.name} | ({fs.params[0].arg} if fs.kind == "classmethod" and fs.params else set())
-    rets = [(c, v) for c, v in SymExec(ix).run(fs) if consistent(c)]
+    # a method of the file model called on the file object (`config_file.m(...)`) is part of the plumbing: executed like a private helper
+    sx = SymExec(ix, methods_of_inputs=True)
+    sx.run(fs)
+    rets = [(st, v) for st, v in sx.exits if consistent(st.conds)]
     rep.require(rets, "a path through Config.from_sources that returns")
     bad: dict[str, list[tuple[str, str, ast.AST]]] = {f_: [] for f_ in fields}
-    for conds, rv in rets:
+    for st0, rv in rets:
         given = _ctor_arguments(rv, ctor_names, fields)
         rep.require(given is not None, "Config.from_sources returns Config(...) with resolvable arguments (keywords, **{dict literal filled by constant keys})")
         for fld in fields:
-            v = given.get(fld)
-            if v is None:
-                bad[fld].append(("field not set", conds_text(conds), rv))
+            v0 = given.get(fld)
+            if v0 is None:
+                bad[fld].append(("field not set", conds_text(st0.conds), rv))
                 continue
-            for ac, av in alternatives(v):
-                allc = tuple(conds) + tuple(ac)
-                if not consistent(allc):
-                    continue
-                if fld in file_fields:
-                    src = f"{cf_param}.{fld}"
-                    ok = norm(av) == src and isinstance(av, ast.Attribute) \
-                        or implies(allc, ("none", src), True) \
-                        or (implies(allc, ("truthy", src), False) and _empty_literal_of(av, file_fields[fld]))
-                else:
-                    ok = isinstance(av, ast.Name) and av.id == fld and fld in params
-                if not ok:
-                    bad[fld].append((norm(av), conds_text(allc), av))
+            # a helper called in argument position is executed as well: the field receives what it returns on each of its paths
+            for st, v in sx.values(v0, st0, fs, 1):
+                for ac, av in alternatives(v):
+                    allc = tuple(st.conds) + tuple(ac)
+                    if not consistent(allc):
+                        continue
+                    if fld in file_fields:
+                        src = f"{cf_param}.{fld}"
+                        ok = norm(av) == src and isinstance(av, ast.Attribute) \
+                            or implies(allc, ("none", src), True) \
+                            or (implies(allc, ("truthy", src), False) and _empty_literal_of(av, file_fields[fld]))
+                    else:
+                        ok = isinstance(av, ast.Name) and av.id == fld and fld in params
+                    if not ok:
+                        bad[fld].append((norm(av), conds_text(allc), av))
     for fld in fields:
         key = f"Config.from_sources::{fld}"
         b = bad[fld]
@@ -1449,6 +1649,33 @@ def _unknown() -> ast.expr:
     return ast.Name(id=UNKNOWN, ctx=ast.Load())
 
 
+def _is_generator(h: Any) -> bool:
+    """a function whose own body (nested functions apart) yields"""
+    todo = list(h.node.body)
+    while todo:
+        n = todo.pop()
+        if isinstance(n, (ast.Yield, ast.YieldFrom)):
+            return True
+        if not isinstance(n, (ast.FunctionDef, ast.AsyncFunctionDef, ast.Lambda, ast.ClassDef)):
+            todo += list(ast.iter_child_nodes(n))
+    return False
+
+
+def _constant_test(t: ast.AST) -> bool | None:
+    """the truth value of a test made of constants only (`not`, `and`, `or` included); None when it depends on anything"""
+    if isinstance(t, ast.Constant):
+        return bool(t.value)
+    if isinstance(t, ast.UnaryOp) and isinstance(t.op, ast.Not):
+        v = _constant_test(t.operand)
+        return None if v is None else not v
+    if isinstance(t, ast.BoolOp):
+        vals = [_constant_test(v) for v in t.values]
+        if isinstance(t.op, ast.And):
+            return False if any(v is False for v in vals) else True if all(v is True for v in vals) else None
+        return True if any(v is True for v in vals) else False if all(v is False for v in vals) else None
+    return None
+
+
 class State:
     __slots__ = ("env", "conds")
 
@@ -1571,9 +1798,14 @@ def _element(it_: ast.AST, idx: int | None = None) -> ast.AST:
 class SymExec:
     MAX_STATES = 256
 
-    def __init__(self, ix: Any, watch: Any = None, inline_depth: int = 2, record: bool = False, stop_at_hit: bool = False) -> None:
+    def __init__(self, ix: Any, watch: Any = None, inline_depth: int = 2, record: bool = False, stop_at_hit: bool = False,
+                 methods_of_inputs: bool = False) -> None:
         self.ix = ix
         self.watch = watch
+        # a method called on a parameter of the entry function that is annotated as a class of the package (`config_file.m(...)`) is
+        # executed as well, `self` being that parameter: what it returns is part of what the entry function computes from its inputs
+        self.methods_of_inputs = methods_of_inputs
+        self.entry: Any = None
         self.stop_at_hit = stop_at_hit  # a path is followed up to the first statement that makes a watched call (what comes after is not asked for)
         self.inline_depth = inline_depth
         self.recorded: list[ast.AST] | None = [] if record else None  # every expression a statement evaluates (tests included), substituted
@@ -1581,10 +1813,13 @@ class SymExec:
         self.exits: list[tuple[State, ast.AST]] = []                  # of the outermost function: (final state, returned value)
         self.hit_env: dict[int, dict[str, ast.AST]] = {}              # id(watched call) -> what the locals held where it was met
         self._helpers: dict[str, dict[str, Any]] = {}
+        self._sinks: list[list[tuple[State, ast.AST]]] = []           # of the generator helpers being executed: what they yield
 
     def run(self, f: Any, bound: dict[str, ast.AST] | None = None, conds: tuple[Cond, ...] = (), depth: int = 0) -> list[tuple[tuple[Cond, ...], ast.AST]]:
         """(path condition, returned value) of every path that returns"""
         rets: list[tuple[State, ast.AST]] = []
+        if depth == 0:
+            self.entry = f
         for s in self._block(f.node.body, [State(dict(bound or {}), tuple(conds))], rets, f, depth):
             rets.append((s, ast.Constant(value=None)))
         if depth == 0:
@@ -1617,7 +1852,24 @@ class SymExec:
             h = _private_class_method(self.ix, f, call)  # `<_PrivateClass>.m(...)`
             if h is not None and (h.module is not f.module or h.qual == f.qual):
                 h = None
+        if h is None and self.methods_of_inputs:
+            h = self._method_of_input(call)
         return h
+
+    def _method_of_input(self, call: ast.Call) -> Any:
+        """the method `<parameter of the entry function>.m(...)` executes, the parameter being annotated as a class of the package"""
+        fn, e = call.func, self.entry
+        if e is None or not (isinstance(fn, ast.Attribute) and isinstance(fn.value, ast.Name)) or fn.attr.startswith("__"):
+            return None
+        p = next((p for p in e.params if p.arg == fn.value.id and p.annotation is not None), None)
+        if p is None:
+            return None
+        ann = p.annotation.value if isinstance(p.annotation, ast.Constant) and isinstance(p.annotation.value, str) else norm(p.annotation)
+        r = self.ix.resolve(e.module, ann)
+        if not r or r[0] != "class":
+            return None
+        m = self.ix.find_method(r[1], fn.attr)
+        return m if m is not None and m.kind == "method" and m.params else None
 
     def values(self, v: ast.AST, s: State, f: Any, depth: int) -> list[tuple[State, ast.AST]]:
         """the (already substituted) value, a call to a helper of f (private function / method, closure) replaced by what the helper
@@ -1625,6 +1877,36 @@ class SymExec:
         h = self._helper(v, f)
         if h is None or depth >= self.inline_depth or any(isinstance(a, ast.Starred) for a in v.args) or any(k.arg is None for k in v.keywords):
             return [(s, v)]
+        if _is_generator(h):
+            return [(s, v)]  # calling it runs nothing: its body runs where the result is iterated (see yielded)
+        bound, outer = self._helper_frame(h, v, s, f)
+        out = []
+        for c, rv in self.run(h, bound, s.conds, depth + 1):
+            s2 = State(dict(s.env), c)
+            for cell in outer & _touched(h.node.body):
+                self._forget(s2, cell)
+            out.append((s2, rv))
+        return out
+
+    def yielded(self, v: ast.AST, s: State, f: Any, depth: int) -> list[tuple[State, ast.AST]] | None:
+        """`for x in <helper>(...)` where the helper is a generator function: x is, in turn, each value the helper yields - (state with the
+        path condition under which it is yielded, the value); None when v is not such a call"""
+        h = self._helper(v, f)
+        if h is None or depth >= self.inline_depth or any(isinstance(a, ast.Starred) for a in v.args) or any(k.arg is None for k in v.keywords) \
+                or not _is_generator(h):
+            return None
+        bound, _ = self._helper_frame(h, v, s, f)
+        sink: list[tuple[State, ast.AST]] = []
+        self._sinks.append(sink)
+        try:
+            self.run(h, bound, s.conds, depth + 1)
+        finally:
+            self._sinks.pop()
+        return [(State(dict(s.env), ys.conds), yv) for ys, yv in sink]
+
+    def _helper_frame(self, h: Any, v: ast.Call, s: State, f: Any) -> tuple[dict[str, ast.AST], set[str]]:
+        """what the names of helper h stand for when it is entered through call v (made in f, state s), and the enclosing function's
+        cells it declares nonlocal"""
         a = h.node.args
         names = [p.arg for p in [*a.posonlyargs, *a.args, *a.kwonlyargs]]
         if h.kind in ("method", "classmethod"):
@@ -1646,16 +1928,13 @@ class SymExec:
             bound.setdefault(n, _unknown())
         if h.kind == "classmethod" and h.cls is not None and h.params and isinstance(v.func, ast.Attribute) and norm(v.func.value) == h.cls.name:
             bound[h.params[0].arg] = ast.Name(id=h.cls.name, ctx=ast.Load())  # called through the class itself: `cls` is that class
+        if h.kind == "method" and h.params and isinstance(v.func, ast.Attribute) and isinstance(v.func.value, ast.Name) and v.func.value.id != UNKNOWN \
+                and h.params[0].arg not in bound and (h.cls is None or v.func.value.id != h.cls.name):
+            bound[h.params[0].arg] = v.func.value  # the object the method runs on is the receiver of the call
         if h.kind == "method" and f.kind == "method" and isinstance(v.func, ast.Attribute) and norm(v.func.value) == f.params[0].arg:
             # the same object: what the caller knows about its attributes holds in the helper
             bound.update({f"{h.params[0].arg}.{k.split('.', 1)[1]}": val for k, val in s.env.items() if k.startswith(f.params[0].arg + ".")})
-        out = []
-        for c, rv in self.run(h, bound, s.conds, depth + 1):
-            s2 = State(dict(s.env), c)
-            for cell in outer & _touched(h.node.body):
-                self._forget(s2, cell)
-            out.append((s2, rv))
-        return out
+        return bound, outer
 
     # -- statements -----------------------------------------------------------------------------------------------------------------
     def _block(self, body: list[ast.stmt], states: list[State], rets: list, f: Any, depth: int) -> list[State]:
@@ -1730,6 +2009,44 @@ class SymExec:
         out.update({kw.arg: kw.value for kw in val.keywords if kw.arg in fields})
         return out
 
+    def _tuple_items(self, val: ast.AST, f: Any) -> list[ast.AST] | None:
+        """the items a value unpacks into: the elements of a tuple / list display, the fields (in declaration order) of a NamedTuple of the
+        package that is constructed with all of them"""
+        if isinstance(val, (ast.Tuple, ast.List)):
+            return list(val.elts)
+        rec = self._record(val, f)
+        if rec is None:
+            return None
+        k = self.ix.resolve(f.module, call_name(val))[1]
+        fields = list(self.ix.all_fields(k))
+        if not any(b.rsplit(".", 1)[-1] == "NamedTuple" for b in self.ix.ext_bases(k)) or any(x not in rec for x in fields):
+            return None
+        return [rec[x] for x in fields]
+
+    def _decide_type_tests(self, t: ast.AST, f: Any) -> ast.AST:
+        """the test with every `isinstance(<C(...)>, D)` whose answer follows from the classes alone (C, D classes of the package, the object
+        being constructed right there) replaced by that answer"""
+        ix = self.ix
+
+        def klass(e: ast.AST) -> Any:
+            r = ix.resolve(f.module, norm(e)) if isinstance(e, (ast.Name, ast.Attribute)) and UNKNOWN not in names_in(e) else None
+            return r[1] if r and r[0] == "class" else None
+
+        class T(ast.NodeTransformer):
+            def visit_Call(self, n: ast.Call) -> ast.AST:
+                if call_name(n) == "isinstance" and len(n.args) == 2 and not n.keywords and isinstance(n.args[0], ast.Call):
+                    c = klass(n.args[0].func)
+                    ds = [klass(d) for d in (n.args[1].elts if isinstance(n.args[1], ast.Tuple) else [n.args[1]])]
+                    if c is not None and ds and all(d is not None for d in ds) and ix.find_method(c, "__new__") is None:
+                        quals = {k.qual for k in ix.mro(c)}
+                        return ast.copy_location(ast.Constant(value=any(d.qual in quals for d in ds)), n)
+                return self.generic_visit(n)
+
+        if not any(isinstance(n, ast.Call) and call_name(n) == "isinstance" for n in ast.walk(t)):
+            return t
+        import copy
+        return T().visit(copy.deepcopy(t))
+
     def _bind(self, t: ast.AST, val: ast.AST, s: State, f: Any = None) -> None:
         if isinstance(t, ast.Name):
             self._forget(s, t.id)
@@ -1740,9 +2057,10 @@ class SymExec:
             self._forget(s, f"{t.value.id}.{t.attr}")
             s.env[f"{t.value.id}.{t.attr}"] = val
         elif isinstance(t, (ast.Tuple, ast.List)):
-            if isinstance(val, (ast.Tuple, ast.List)) and len(val.elts) == len(t.elts) and not any(isinstance(x, ast.Starred) for x in [*t.elts, *val.elts]):
-                for te, ve in zip(t.elts, val.elts):
-                    self._bind(te, ve, s)
+            items = self._tuple_items(val, f)
+            if items is not None and len(items) == len(t.elts) and not any(isinstance(x, ast.Starred) for x in [*t.elts, *items]):
+                for te, ve in zip(t.elts, items):
+                    self._bind(te, ve, s, f)
             else:
                 for te in t.elts:
                     self._bind(te, _unknown(), s)
@@ -1791,10 +2109,18 @@ class SymExec:
                 self._bind(st.target, _unknown(), s2)
             return [s2]
         if isinstance(st, ast.If):
-            t = substitute(st.test, s.env)
+            t = self._decide_type_tests(substitute(st.test, s.env), f)
             s2 = s.fork()
             self._method_effects(st, s2, f)
+            known = _constant_test(t)
+            if known is not None:  # decided by what the value is (an object just constructed is / is not of a class): one branch exists
+                return self._block(st.body if known else st.orelse, [s2], rets, f, depth)
             return self._block(st.body, [s2.fork((t, True))], rets, f, depth) + self._block(st.orelse, [s2.fork((t, False))], rets, f, depth)
+        if isinstance(st, ast.Expr) and isinstance(st.value, (ast.Yield, ast.YieldFrom)):
+            if self._sinks and depth > 0:
+                yv = substitute(st.value.value, s.env) if st.value.value is not None else ast.Constant(value=None)
+                self._sinks[-1].append((s, _element(yv) if isinstance(st.value, ast.YieldFrom) else yv))
+            return [s]
         if isinstance(st, ast.Return):
             v = substitute(st.value, s.env) if st.value is not None else ast.Constant(value=None)
             for s2, val in self.values(v, s, f, depth):
@@ -1826,6 +2152,13 @@ class SymExec:
                 if isinstance(b, ast.stmt) and b is not st:
                     self._method_effects(b, s2, f)
             self._method_effects(st, s2, f)
+            ys = self.yielded(substitute(st.iter, s2.env), s2, f, depth) if not isinstance(st, ast.While) else None
+            if ys is not None:
+                # a loop over a generator helper: the body runs for each value the helper yields, under the condition it is yielded
+                for ystate, yv in ys:
+                    self._bind(st.target, yv, ystate, f)
+                    self._block(st.body, [ystate], rets, f, depth)
+                return self._block(st.orelse, [s2], rets, f, depth) if st.orelse else [s2]
             inner = s2.fork()
             if not isinstance(st, ast.While):
                 self._bind_loop_target(st.target, substitute(st.iter, s2.env), inner)
